@@ -13,6 +13,7 @@ from ..common import V, samples_of, seed_offset
 OILS = [(200.0, 35.0, 0.8, 650.0), (120.0, 22.0, 0.65, 180.0), (300.0, 48.0, 1.1, 1900.0), (200, 35, 0.8, 650)]
 DTYPES = ["f8", "f4", "i8", "i4"]
 LAYOUTS = ["contiguous", "stride2", "reversed"]
+NO_SERIES: set = set()  # functions whose pristine form does not take a pandas Series (none found)
 ULPS = 64  # of the floating type involved: a dozen elementary operations and two powers
 
 
@@ -193,6 +194,41 @@ def evaluate(case):
                     viol.append(V("array2d/element", f"{fname} on the 2x2 {lay2}-ordered array {keep.tolist()} returns "
                                   f"{out2.tolist()}, scalar calls give {ref2.tolist()}", case=dict(case, values=list(combo), layout2=lay2)))
                     break
+            if len(viol) >= 2:
+                break
+    # pandas Series (a pressure column of a table): positional element-wise law whatever the index looks like - a permuted
+    # integer index (sort_values without reset_index), labels with gaps (a filtered column), duplicated labels (two files
+    # concatenated), string labels.  `series[int_array]` / `series[i]` are LABEL look-ups: code that indexes its input by
+    # position numbers silently pairs pressures with the wrong elements (or raises) for exactly these columns.
+    if layout == "contiguous" and dtype == "f8" and fname not in NO_SERIES and len(viol) < 2:
+        import pandas as pd  # noqa: PLC0415
+
+        for L in (1, 3):
+            for combo in itertools.product(vals, repeat=L):
+                for iname, index in (("permuted", [2, 0, 1][:L] if L > 1 else [5]), ("gapped", [10, 20, 40][:L]),
+                                     ("duplicated", [0, 0, 1][:L]), ("strings", ["a", "b", "c"][:L])):
+                    n_eval += 1
+                    ser = pd.Series(np.array(combo, dtype=float), index=index)
+                    keep = ser.copy(deep=True)
+                    cs = dict(case, values=list(combo), series_index=iname)
+                    try:
+                        outs = np.asarray(f_arr(o, ser))
+                    except Exception as e:  # noqa: BLE001
+                        viol.append(V("series/raises", f"{fname} on a pandas Series of pressures with a {iname} index {index} raises "
+                                      f"{type(e).__name__}: {e}", case=cs))
+                        break
+                    refs = np.array([scal[v] if not isinstance(scal[v], Exception) else np.nan for v in combo])
+                    if outs.shape != (L,) or not (ser.to_numpy() == keep.to_numpy()).all() or list(ser.index) != list(keep.index):
+                        viol.append(V("series/shape-or-input", f"{fname} on a Series ({iname} index): result shape {outs.shape}, "
+                                      "or the Series was modified", case=cs))
+                        break
+                    if not np.all((np.abs(outs.astype(float) - refs) <= ULPS * eps * np.abs(refs)) | np.isnan(refs)):
+                        viol.append(V("series/element", f"{fname} on the Series {list(combo)} with {iname} index {index} returns "
+                                      f"{outs.tolist()}; the scalar calls, in order, give {refs.tolist()}", case=cs))
+                        break
+                else:
+                    continue
+                break
             if len(viol) >= 2:
                 break
     return {"violations": viol[:2], "evals": n_eval, "splits": len(seen_split), "outcome": f"{dtype}:{layout}"}
